@@ -100,6 +100,17 @@ impl<T: Read + Write + ScmSocket> HttpConnection<T> {
         // `read_cursor` bytes present in the buffer.
         let end_cursor = self.read_bytes()?;
 
+        let result = self.parse_buffer(end_cursor);
+        if let Err(ConnectionError::ParseError(_)) = result {
+            // Nothing of a rejected request may survive the error: whatever follows on the
+            // stream has to be parsed as a new request by a connection in its initial state.
+            self.reset_parser();
+        }
+        result
+    }
+
+    /// Runs the state machine over the bytes in `buffer[..end_cursor]`.
+    fn parse_buffer(&mut self, end_cursor: usize) -> Result<(), ConnectionError> {
         let mut line_start_index = 0;
         loop {
             match self.state {
@@ -130,6 +141,16 @@ impl<T: Read + Write + ScmSocket> HttpConnection<T> {
                 }
             };
         }
+    }
+
+    /// Discards the partially parsed request and everything buffered for it.
+    fn reset_parser(&mut self) {
+        self.state = ConnectionState::WaitingForRequestLine;
+        self.pending_request = None;
+        self.read_cursor = 0;
+        self.body_vec.clear();
+        self.body_bytes_to_be_read = 0;
+        self.files.clear();
     }
 
     /// Reads a maximum of 1024 bytes from the stream into `buffer`.
